@@ -206,5 +206,42 @@ def write_targets():
     ]
 
 
+# ---- a new connection starts with a clean reassembly state ('whatever a client does on a connection ...
+# the results of later requests are unaffected'): the server object outlives its connections, so what an
+# earlier client left half-sent must not be prepended to the next client's bytes
+
+
+class FakeSock:
+    def accept(self):
+        raise NotImplementedError
+
+
+class FakeConn:
+    def setsockopt(self, *a):
+        raise NotImplementedError
+
+
+def setup_enter(I):
+    self = I.make(TObj(IPC.IPCServer), "self")
+    self.cands = [IPC.IPCServer]
+    buf = I.getattr(self, "buffer")
+    all_bytes(I, buf.t, "buf")
+    return {"args": [self], "self": self}
+
+
+def ens_enter(I, env, res):
+    self = env["self"]
+    return z3.And(z3.Length(I.getattr(self, "buffer").t) == 0, isnone(I.getattr(self, "message_size")))
+
+
+def enter_targets():
+    ft = dict(FIELD_TYPES)
+    ft[("IPCServer", "sock")] = TObj(FakeSock)
+    conn = lambda I, a, k: STuple([I.new_object(FakeConn), SOpaque("peer")])
+    ov = {"contracts.ipc_c:FakeSock.accept": conn, "contracts.ipc_c:FakeConn.setsockopt": noop}
+    return [Target("ipc.server_enter.clean_receive_state", "mypy.ipc:IPCServer.__enter__", setup_enter, ensures=[("new-connection-starts-with-an-empty-reassembly-buffer", ens_enter)],
+                   raises=(IPC.IPCException,), overrides=ov, field_types=ft, note="posix branch; socket.accept is an arbitrary new connection")]
+
+
 def targets(tier):
-    return read_targets() + write_targets()
+    return read_targets() + write_targets() + enter_targets()
